@@ -6,12 +6,12 @@
     a bound variable is an assignment; SPEC: [glob_set]; code: [generate false .. e ++ [IPushCell x; ISetCdr; IPush LVoid]];
     VM: SET-CDR on the global cell = [assoc_set x v (globals s)]).
 
-    Forms covered ([formA]): an expression of SimFull's fragment [fragA SV None] (assignments to locals, boxes,
-    internal defines, closures, calls), or [SetV x Global e] with e in that fragment.  RESTRICTION: [fragA] contains no
-    assignment to a global, so globals are assigned by top-level forms only, never from inside a procedure body
-    ((define (f ..) ..), (define g <expr>), re-definitions, top-level (set! g <expr>), expressions calling the defined
-    procedures; recursion through globals works because a body refers to a global by name and the globals relation is
-    re-established after every form).
+    Forms covered ([formA] = [fragA SV None]): any expression of SimFull's fragment (assignments to locals and to
+    GLOBALS, boxes, internal defines, closures, rest parameters, calls).  [SetV x Global e] is an expression of the
+    fragment wherever it stands: top-level (define x e) / (set! x e), but also inside a procedure body (writer
+    procedures such as (define (wr v) (set! g v))) or nested in an expression.  SimFull's simulation threads the VM
+    globals through every result ([globrel SV W' (sglobals st') gl']), so the globals relation is re-established after
+    every form (recursion through globals works because a body refers to a global by name).
 
     [compile_toplevel e] = [generate true (fun _ => []) None (annotate e) ++ [IRet]]:
       * [annotate]: the theorems are stated for forms that are already annotated ([annotate e = e]: every lambda's
@@ -159,68 +159,12 @@ Proof.
   intros m Hm. exfalso. apply Hm. reflexivity.
 Qed.
 
-(* ------------------------------------------------------------------ association lists of globals *)
-
-Lemma glob_lookup_set : forall g x w l,
-  glob_lookup g (glob_set x w l) = if Nat.eqb g x then Some w else glob_lookup g l.
-Proof.
-  intros g x w l. induction l as [|[k u] t IH]; cbn [glob_set glob_lookup].
-  - destruct (Nat.eqb g x); reflexivity.
-  - destruct (Nat.eqb x k) eqn:E; cbn [glob_lookup].
-    + apply Nat.eqb_eq in E. subst k. destruct (Nat.eqb g x); reflexivity.
-    + rewrite IH. destruct (Nat.eqb g k) eqn:E2; [|reflexivity].
-      apply Nat.eqb_eq in E2. subst k. rewrite Nat.eqb_sym, E. reflexivity.
-Qed.
-
-Lemma assoc_nat_set : forall {A} g x (w : A) l,
-  assoc_nat g (assoc_set x w l) = if Nat.eqb g x then Some w else assoc_nat g l.
-Proof.
-  intros A g x w l. induction l as [|[k u] t IH]; cbn [assoc_set assoc_nat].
-  - destruct (Nat.eqb g x); reflexivity.
-  - destruct (Nat.eqb x k) eqn:E; cbn [assoc_nat].
-    + apply Nat.eqb_eq in E. subst k. destruct (Nat.eqb g x); reflexivity.
-    + rewrite IH. destruct (Nat.eqb g k) eqn:E2; [|reflexivity].
-      apply Nat.eqb_eq in E2. subst k. rewrite Nat.eqb_sym, E. reflexivity.
-Qed.
-
-(* ------------------------------------------------------------------ the two instructions of a global assignment *)
-
-Lemma step_push_cell : forall s pre g post, at_code s pre [IPushCell g] post ->
-  step s = Next (upd s (VCell g :: stk s) (S (ip s)) (heap s)).
-Proof. intros s pre g post H. unfold step. rewrite (fetch _ _ _ _ H). reflexivity. Qed.
-
-Lemma step_set_cdr_cell : forall s pre post g v r, at_code s pre [ISetCdr] post -> stk s = VCell g :: v :: r ->
-  step s = Next (mkst r (fp s) (self s) (S (ip s)) (heap s) (assoc_set g v (globals s))).
-Proof. intros s pre post g v r H Hs. unfold step. rewrite (fetch _ _ _ _ H), Hs. reflexivity. Qed.
-
 (* ------------------------------------------------------------------ one top-level form *)
 
-(** every SPEC global has a VM global representing it in world W *)
-Definition globrel (SV : nat -> list name) (W : world) (sg : list (nat * sval)) (gl : list (nat * value)) : Prop :=
-  forall g w, glob_lookup g sg = Some w -> exists v0, assoc_nat g gl = Some v0 /\ vrelW SV W v0 w.
-
-Lemma globrel_mono : forall SV W W' sg gl, WINV SV W -> wext W W' -> globrel SV W sg gl -> globrel SV W' sg gl.
-Proof.
-  intros SV W W' sg gl HI HE H g w Hg. destruct HI as (HB & _).
-  destruct (H g w Hg) as (v0 & Ha & Hv). exists v0. split; [exact Ha|]. eapply vrelW_mono; eauto.
-Qed.
-
-Lemma globrel_set : forall SV W sg gl x v' w, globrel SV W sg gl -> vrelW SV W v' w ->
-  globrel SV W (glob_set x w sg) (assoc_set x v' gl).
-Proof.
-  intros SV W sg gl x v' w H Hv g w0 Hg. rewrite glob_lookup_set in Hg. rewrite assoc_nat_set.
-  destruct (Nat.eqb g x).
-  - inversion Hg; subst w0. exists v'. split; [reflexivity|exact Hv].
-  - apply H. exact Hg.
-Qed.
-
-(** the forms of a program: an expression of the fragment, or a definition / assignment of a global whose right-hand
-    side is in the fragment *)
-Definition formA (SV : nat -> list name) (e : ast) : bool :=
-  match e with
-  | SetV _ Global e1 => fragA SV None e1
-  | _ => fragA SV None e
-  end.
+(** [globrel], [globrel_mono], [globrel_set] (every SPEC global has a VM global representing it in world W) live in
+    SimFull.v.  The forms of a program are the expressions of the fragment: a top-level definition / re-definition /
+    assignment of a global is the expression [SetV x Global e] of [fragA] *)
+Definition formA (SV : nat -> list name) (e : ast) : bool := fragA SV None e.
 
 Definition base4 : list value := [VLit LVoid; VLit LVoid; VLit LVoid; VLit LVoid].
 
@@ -231,12 +175,7 @@ Definition entry_state (c : code) (h : list hobj) (gl : list (nat * value)) : st
 Lemma init_state_entry : forall c h gl, init_state c h gl = Next (entry_state c h gl).
 Proof. intros c h gl. unfold init_state. rewrite make_call_fixed by (simpl; lia). reflexivity. Qed.
 
-Lemma env_okA_toplevel : forall SV sg W s, globrel SV W sg (globals s) -> env_okA SV None [] sg W s.
-Proof.
-  intros SV sg W s Hgl. split; [|split]; try (intros; discriminate). exact Hgl.
-Qed.
-
-(** (a) an expression *)
+(** one top-level form *)
 Lemma form_expr_correct : forall SV fuel e st v st' W gl,
   annotate e = e -> wf_program e = true -> fragA SV None e = true ->
   eval fuel e [] st = SVal v st' ->
@@ -248,82 +187,10 @@ Lemma form_expr_correct : forall SV fuel e st v st' W gl,
 Proof.
   intros SV fuel e st v st' W gl Han Hwf Hp He HWc HI Hgl.
   rewrite (compile_toplevel_SV SV e Han Hwf).
-  destruct (compile_correct_toplevel_expr_imperative SV fuel e st v st' SV W gl Hp He (fun m => eq_refl) HWc HI Hgl)
-    as (s0 & n & v' & s' & W' & Hinit & Hrun & HE & Hh & Hc & HI' & Hv & Hg).
-  set (s1 := entry_state (generate true SV None e ++ [IRet]) (wh W) gl).
-  assert (Hsg : sglobals st' = sglobals st).
-  { assert (Hc1 : code_of (self s1) = [] ++ generate true SV (lctxA None) e ++ [IRet]) by reflexivity.
-    exact (proj1 (compile_correct_imperative_fragment SV fuel e None [] st v st' true SV s1 [] [IRet] W
-                    Hp He (fun m => eq_refl) Hc1 eq_refl eq_refl HWc HI (env_okA_toplevel SV _ W s1 Hgl))). }
-  exists s0, n, v', s', W'. split; [exact Hinit|]. split; [exact Hrun|]. split; [exact HE|]. split; [exact Hh|].
-  split; [exact Hc|]. split; [exact HI'|]. split; [exact Hv|].
-  rewrite Hg, Hsg. exact (globrel_mono SV W W' _ _ HI HE Hgl).
+  exact (compile_correct_toplevel_expr_imperative SV fuel e st v st' SV W gl Hp He (fun m => eq_refl) HWc HI Hgl).
 Qed.
 
-(** (b) definition / re-definition / assignment of a global at top level *)
-Lemma form_define_correct : forall SV fuel x e1 st v st' W gl,
-  annotate e1 = e1 -> wf_program e1 = true -> fragA SV None e1 = true ->
-  eval fuel (SetV x Global e1) [] st = SVal v st' ->
-  wc W = cells st -> WINV SV W -> globrel SV W (sglobals st) gl ->
-  exists s0 n s' W' w v',
-    init_state (compile_toplevel (SetV x Global e1)) (wh W) gl = Next s0 /\
-    run n s0 = Done (VLit LVoid) s' /\ v = SLit LVoid /\
-    wext W W' /\ heap s' = wh W' /\ wc W' = cells st' /\ WINV SV W' /\
-    vrelW SV W' v' w /\ sglobals st' = glob_set x w (sglobals st) /\ globals s' = assoc_set x v' gl /\
-    globrel SV W' (sglobals st') (globals s').
-Proof.
-  intros SV fuel x e1 st v st' W gl Han Hwf Hp He HWc HI Hgl.
-  destruct fuel as [|f]; [discriminate He|].
-  rewrite eval_SetVA in He.
-  destruct (eval f e1 [] st) as [w st1| |] eqn:E1; try discriminate He.
-  inversion He; subst v st'; clear He.
-  set (c1 := generate false SV None e1).
-  set (tailc := [IPushCell x; ISetCdr; IPush LVoid; IRet]).
-  assert (Hcode : compile_toplevel (SetV x Global e1) = c1 ++ tailc).
-  { unfold compile_toplevel. cbn [annotate]. rewrite Han. cbn [generate].
-    rewrite (generate_sv_indep e1 [] false (fun _ => []) SV None Hwf).
-    - unfold c1, tailc. rewrite <- !app_assoc. reflexivity.
-    - intros m Hm. exfalso. apply Hm. reflexivity. }
-  set (s0 := entry_state (c1 ++ tailc) (wh W) gl).
-  destruct (compile_correct_imperative_fragment SV f e1 None [] st w st1 false SV s0 [] tailc W
-              Hp E1 (fun m => eq_refl) eq_refl eq_refl eq_refl HWc HI (env_okA_toplevel SV _ W s0 Hgl))
-    as (Hsg & W' & v' & HE & HWc' & HI' & Hv' & [[n Hn] | [Habs _]]); [|discriminate Habs].
-  change (generate false SV (lctxA None) e1) with c1 in Hn. cbn [length Nat.add] in Hn.
-  set (s2 := mkst (v' :: stk s0) (fp s0) (self s0) (length c1) (wh W') (globals s0)) in *.
-  (* PUSH the global's cell *)
-  assert (Hat2 : at_code s2 c1 [IPushCell x] [ISetCdr; IPush LVoid; IRet]) by (split; reflexivity).
-  pose proof (step_push_cell s2 _ _ _ Hat2) as Hst2.
-  set (s3 := upd s2 (VCell x :: stk s2) (S (ip s2)) (heap s2)) in *.
-  (* SET-CDR *)
-  assert (Hat3 : at_code s3 (c1 ++ [IPushCell x]) [ISetCdr] [IPush LVoid; IRet]).
-  { split; simpl; [|solve_len]. norm_code. }
-  pose proof (step_set_cdr_cell s3 _ _ x v' (stk s0) Hat3 eq_refl) as Hst3.
-  set (s4 := mkst (stk s0) (fp s3) (self s3) (S (ip s3)) (heap s3) (assoc_set x v' (globals s3))) in *.
-  (* PUSH void *)
-  assert (Hat4 : at_code s4 (c1 ++ [IPushCell x; ISetCdr]) [IPush LVoid] [IRet]).
-  { split; simpl; [|solve_len]. norm_code. }
-  pose proof (step_push s4 _ _ _ Hat4) as Hst4.
-  set (s5 := upd s4 (VLit LVoid :: stk s4) (S (ip s4)) (heap s4)) in *.
-  (* RET into the final resumer *)
-  assert (Hat5 : at_code s5 (c1 ++ [IPushCell x; ISetCdr; IPush LVoid]) [IRet] []).
-  { split; simpl; [|solve_len]. norm_code. }
-  assert (Hfi0 : frame_info s0 = Some (0, 0, final_resumer, 0)) by apply (frame_info_entry 0 final_resumer 0 0 base4).
-  assert (Hfi5 : frame_info s5 = Some (0, 0, final_resumer, 0)).
-  { eapply (frame_info_app s0 s5 [VLit LVoid]); eauto. }
-  pose proof (step_ret s5 _ _ (VLit LVoid) (stk s0) 0 0 final_resumer 0 Hat5 eq_refl Hfi5 (Nat.le_0_l _)) as Hst5.
-  set (t := mkst (VLit LVoid :: below (fp s5 - 0) (VLit LVoid :: stk s0)) 0 final_resumer 0 (heap s5) (globals s5)) in *.
-  assert (Hreach : nsteps (n + 4) s0 = Some t).
-  { eapply nsteps_app; [exact Hn|]. cbn [nsteps]. rewrite Hst2, Hst3, Hst4, Hst5. reflexivity. }
-  exists s0, (n + 4 + 1), t, W', w, v'.
-  split; [rewrite Hcode; apply init_state_entry|].
-  split; [rewrite (run_nsteps (n + 4) 1 s0 t Hreach); reflexivity|].
-  split; [reflexivity|]. split; [exact HE|]. split; [reflexivity|]. split; [exact HWc'|]. split; [exact HI'|].
-  split; [exact Hv'|]. cbn [sglobals]. rewrite Hsg. split; [reflexivity|]. split; [reflexivity|].
-  change (globals t) with (assoc_set x v' gl).
-  apply globrel_set; [|exact Hv']. exact (globrel_mono SV W W' _ _ HI HE Hgl).
-Qed.
-
-(** one top-level form of either shape.  The VM run of the compiled form from the state [init_state] produces ends in
+(** one top-level form.  The VM run of the compiled form from the state [init_state] produces ends in
     DONE with a value representing the SPEC's value; heap/cells, the world invariant and the globals relation are
     re-established (for the NEW globals, in the NEW world) so that the next form can be run. *)
 Theorem compile_correct_toplevel_form : forall SV fuel e st v st' W gl,
@@ -336,15 +203,7 @@ Theorem compile_correct_toplevel_form : forall SV fuel e st v st' W gl,
     vrelW SV W' v' v /\ globrel SV W' (sglobals st') (globals s').
 Proof.
   intros SV fuel e st v st' W gl Han Hwf Hf He HWc HI Hgl.
-  assert (Hcase : (exists x e1, e = SetV x Global e1) \/ formA SV e = fragA SV None e).
-  { destruct e as [| | x [|m] e1| | | | |]; try (right; reflexivity). left; eauto. }
-  destruct Hcase as [(x & e1 & ->) | Hfe].
-  - cbn [annotate] in Han. injection Han as Han1.
-    assert (Hwf1 : wf_program e1 = true) by exact Hwf.
-    destruct (form_define_correct SV fuel x e1 st v st' W gl Han1 Hwf1 Hf He HWc HI Hgl)
-      as (s0 & n & s' & W' & w & v' & Hinit & Hrun & -> & HE & Hh & Hc & HI' & _ & _ & _ & Hg).
-    exists s0, n, (VLit LVoid), s', W'. repeat (split; [assumption|]). split; [constructor|exact Hg].
-  - rewrite Hfe in Hf. exact (form_expr_correct SV fuel e st v st' W gl Han Hwf Hf He HWc HI Hgl).
+  exact (form_expr_correct SV fuel e st v st' W gl Han Hwf Hf He HWc HI Hgl).
 Qed.
 
 (* ------------------------------------------------------------------ programs *)
@@ -355,7 +214,7 @@ Lemma run_program_cons : forall n e r h g s0 v s',
 Proof. intros n e r h g s0 v s' Hi Hr. cbn [run_program]. rewrite Hi, Hr. reflexivity. Qed.
 
 (** what is asked of every form: annotated (free-variable lists as sexp_free_vars computes them), well-scoped
-    ([Model.wf]) and of one of the two shapes of [formA] *)
+    ([Model.wf]) and in the fragment ([formA]) *)
 Definition form_ok (SV : nat -> list name) (e : ast) : Prop :=
   annotate e = e /\ wf_program e = true /\ formA SV e = true.
 
@@ -364,10 +223,8 @@ Definition form_ok (SV : nat -> list name) (e : ast) : Prop :=
     other (threading heap and globals) to a value representing v, and the final globals represent the SPEC's final
     globals.
 
-    "partial": the forms are those of [formA] -- expressions of SimFull's fragment and top-level
-    definitions/assignments of globals whose right-hand side is in that fragment; NO assignment to a global from
-    inside a procedure body or nested in an expression; fixed-arity lambdas, no eq?, value outcomes only (whatever
-    [fragA] excludes).  See the comment at the end of the file for what lifting the restriction takes. *)
+    "partial": the forms are those of [formA] = [fragA SV None] -- no eq?, value outcomes only (whatever [fragA]
+    excludes); assignments to globals are allowed anywhere, including inside procedure bodies. *)
 Theorem compile_correct_program_partial : forall SV forms fuel st v st' W gl,
   Forall (form_ok SV) forms ->
   eval_program fuel forms st = SVal v st' ->
@@ -507,35 +364,49 @@ Module ExampleProg.
 
   Example run_prog2 : exists s', run_program 100 prog2 [] [] = Done (VLit (LInt 2)) s'.
   Proof. eexists. vm_compute. reflexivity. Qed.
+
+  (** a WRITER procedure: (define g 1) (define (wr v) (set! g (cons v g))) (wr 5) (wr 6) g  =>  (6 5 . 1)
+      names: g = 0, wr = 5, v = 6; lambda id 4.  The global is assigned from inside the procedure body (in tail
+      position), twice, and read back at top level. *)
+  Definition prog3 : list ast :=
+    [ SetV 0 Global (Lit (LInt 1));
+      SetV 5 Global (Lam 4 [6] None [] [] [] (SetV 0 Global (OpApp PCons [Ref 6 (Local 4); Ref 0 Global])));
+      App (Ref 5 Global) [Lit (LInt 5)];
+      App (Ref 5 Global) [Lit (LInt 6)];
+      Ref 0 Global ].
+  Definition expected3 : sval := SPair (SLit (LInt 6)) (SPair (SLit (LInt 5)) (SLit (LInt 1))).
+
+  Example forms_ok3 : Forall (form_ok (fun _ => [])) prog3.
+  Proof. repeat (constructor; [split; [reflexivity|split; reflexivity]|]). constructor. Qed.
+
+  Example eval_prog3 : exists st', eval_program 10 prog3 st0 = SVal expected3 st'.
+  Proof. eexists. vm_compute. reflexivity. Qed.
+
+  Example end_to_end3 : exists n v' s' W',
+    run_program n prog3 [] [] = Done v' s' /\ heap s' = wh W' /\ vrelW (fun _ => []) W' v' expected3 /\
+    exists v0, assoc_nat 0 (globals s') = Some v0 /\ vrelW (fun _ => []) W' v0 expected3.
+  Proof.
+    destruct eval_prog3 as [st' He].
+    destruct (compile_correct_program_partial_empty (fun _ => []) prog3 10 _ st' forms_ok3 He)
+      as (n & v' & s' & W' & Hrun & Hh & _ & _ & Hv & Hg).
+    exists n, v', s', W'. split; [exact Hrun|]. split; [exact Hh|]. split; [exact Hv|].
+    apply Hg.
+    assert (Hst : sglobals st' = snd (match eval_program 10 prog3 st0 with SVal _ st1 => (tt, sglobals st1) | _ => (tt, []) end))
+      by (rewrite He; reflexivity).
+    rewrite Hst. vm_compute. reflexivity.
+  Qed.
+
+  (** observed directly on the model VM: the value is the pair chain (6 5 . 1) in the final heap, and it is the
+      content of the global g *)
+  Example run_prog3 : exists a b s',
+    run_program 100 prog3 [] [] = Done (VPair a) s' /\ assoc_nat 0 (globals s') = Some (VPair a) /\
+    nth_error (heap s') a = Some (HPair (VLit (LInt 6)) (VPair b)) /\
+    nth_error (heap s') b = Some (HPair (VLit (LInt 5)) (VLit (LInt 1))).
+  Proof.
+    eexists. eexists. eexists. split; [|split; [|split]].
+    - vm_compute. reflexivity.
+    - vm_compute. reflexivity.
+    - vm_compute. reflexivity.
+    - vm_compute. reflexivity.
+  Qed.
 End ExampleProg.
-
-(* ------------------------------------------------------------------ what lifting the restriction takes
-
-   RESTRICTION of [compile_correct_program_partial]: no [SetV x Global _] below the top of a form (SimFull's
-   [fragA cur (SetV x Global v) = false]).  Nothing in this file has to change to lift it except [formA := fragA] (the
-   case [form_define_correct] then becomes an instance of [form_expr_correct]); the work is in SimFull.v:
-
-   1. [fragA]: [SetV x Global v => fragA cur v].
-   2. The simulation statement [simA_at] says [sglobals st' = sglobals st] and its target states ([fallH], [retH],
-      hence [outcomeH], [resA], and the two closed forms) keep [globals s].  Both must be threaded instead: [fallH] /
-      [retH] take the final VM globals gl' as they take the final heap h'; [resA] becomes
-        exists W' v' gl', wext W W' /\ wc W' = cells st' /\ WINV W' /\ vrelW W' v' v /\
-                          globrel W' (sglobals st') gl' /\ outcomeH tl s pre c v' (wh W') gl'.
-   3. [env_okA] has three parts; the third (globals) is the only one that is not preserved by the current
-      [env_okA_mono] once [globals s1 <> globals s].  Split it off: frame slots + closure vector stay in [env_okA]
-      (monotone along [wext], indifferent to the globals), and [globrel W (sglobals st) (globals s)] (this file) becomes
-      a separate hypothesis of [simA_at], re-established by every result (item 2) and handed to the next
-      sub-evaluation together with its store: in [Cnd] (test, then branch), [simA_seq], [simA_args] (operands, then
-      operator), the two-operand [OpApp] case, [core_stepA], and at procedure entry in [call_closedA] (the callee starts
-      from the caller's current globals: SPEC [mkstore c3 (sglobals st2)], VM [make_call] keeps [globals s]).
-      [globrel_mono] and [globrel_set] above are the two facts needed; [vrelW], [wext], [WINV] are untouched because
-      globals are looked up by NAME at run time on both sides (closures capture no global, the world holds no global).
-   4. A new case in [simA_step] for [SetV x Global e1]: IH for e1 with tl = false, then [step_push_cell],
-      [step_set_cdr_cell] (this file; the world does not change: W' = W1, gl' = assoc_set x v' gl1,
-      SPEC [glob_set x w (sglobals st1)], related by [globrel_set]), then PUSH void exactly as the [Local] case; in
-      [simA_seq] the non-final occurrence goes through generate_drop_prev's rewind ([is_set_or_lit] is true for a
-      global set! too), so [set_coreA] / [generate_SetVA] / [core_stepA] get a [Global] variant
-      ([generate false .. e1 ++ [IPushCell x; ISetCdr]]).
-   An alternative to item 2-3 with the same effect: make the globals a fourth component of [world]
-   ([wg : list (nat * value)] with the relation to [sglobals] inside [WINV]) -- then [wext] must allow [wg] to change
-   and [vrelW_mono] is unaffected, but every [upd]/[mkst] in the proofs still has to stop copying [globals s]. *)
